@@ -219,6 +219,10 @@ def c04_6(ctx):
     for rel, name in SIGHASH_FUNCS:
         f = ctx.func(rel, name)
         for wr in writes_in(f):
+            if not wr.fresh:
+                from rules import C06 as _C06
+                if _C06.memo_policy(ctx, f, wr, "sighash-write:%s:%s" % (f.name, wr.text)):
+                    continue
             ctx.check(wr.fresh, "sighash-write:%s:%s" % (f.name, wr.text), ctx.where(f, wr.node),
                       "%s writes `%s`, whose receiver is not an object created inside the sighash computation: computing a signature hash must not "
                       "modify the transaction or keep state on the checker" % (f.qualname.split(".", 3)[-1], wr.text), what="%s:%s" % (f.name, wr.text),
